@@ -522,7 +522,7 @@ pub fn clutter_filter_map(tape: &mut Tape, r: &mut Rng, max_segments: usize, big
 
 pub fn volume_header(version: &str, extension: u16, date: u32, time_ms: u32, icao: &str) -> Vec<u8> {
     let mut v = Vec::with_capacity(24);
-    let name = format!("AR2V00{}.", version);
+    let name = format!("AR2V000{}.", version);
     v.extend_from_slice(&name.as_bytes()[..9]);
     v.extend_from_slice(format!("{:03}", extension % 1000).as_bytes());
     v.extend_from_slice(&be32(date));
